@@ -409,7 +409,10 @@ func (g *Gen) goInstr(st *State, x *ssa.Go) {
 
 func (g *Gen) send(st *State, x *ssa.Send) {
 	ch := g.val(st, x.Chan)
-	_ = ch
+	if g.C != nil && g.C.ChanState && !g.quiet && ch.K == VScalar && ch.T != nil {
+		h := g.heapGet(st, "O:ghost.closed", ArraySort(SInt, SInt))
+		g.oblige(st, "chan-send", "", "send on a closed channel (ghost closed)", x.Pos(), Eq(Select(h, ch.T), IntLit(0)))
+	}
 	g.escape(g.val(st, x.X))
 	g.Abstracted["channel send: blocking and closed-channel state not modelled"] = true
 }
